@@ -61,6 +61,13 @@ macro_rules! vec_lerp_generic { ($s:expr, $V:ident, $d:expr) => {{
         ("&Lerp::lerp_unclamped_precise", catch(|| <&$V<Term> as Lerp<Term>>::lerp_unclamped_precise(&from, &to, fs)), false, false),
         ("&Lerp::lerp", catch(|| <&$V<Term> as Lerp<Term>>::lerp(&from, &to, fs)), false, true),
         ("&Lerp::lerp_precise", catch(|| <&$V<Term> as Lerp<Term>>::lerp_precise(&from, &to, fs)), false, true),
+        // (added) per-element factor through the clamped inherent forms, and the range forms of the reference impl
+        ("lerp(vector factor)", catch(|| $V::lerp(from, to, fv)), true, true),
+        ("lerp_precise(vector factor)", catch(|| $V::lerp_precise(from, to, fv)), true, true),
+        ("&Lerp::lerp_unclamped_inclusive_range", catch(|| <&$V<Term> as Lerp<Term>>::lerp_unclamped_inclusive_range(&from..=&to, fs)), false, false),
+        ("&Lerp::lerp_unclamped_precise_inclusive_range", catch(|| <&$V<Term> as Lerp<Term>>::lerp_unclamped_precise_inclusive_range(&from..=&to, fs)), false, false),
+        ("&Lerp::lerp_inclusive_range", catch(|| <&$V<Term> as Lerp<Term>>::lerp_inclusive_range(&from..=&to, fs)), false, true),
+        ("&Lerp::lerp_precise_inclusive_range", catch(|| <&$V<Term> as Lerp<Term>>::lerp_precise_inclusive_range(&from..=&to, fs)), false, true),
     ];
     for (label, res, per_lane, clamped) in runs {
         let site = format!("{}::{}", name, label);
@@ -83,19 +90,22 @@ fn fits(v: Q, mant: u32) -> bool {
 }
 fn round_half_away(v: Q) -> i128 { v.round().n }
 
-macro_rules! int_lerp { ($s:expr, $T:ty, $F:ty, $mant:expr, $pairs:expr, $acc:expr) => {{
+macro_rules! int_lerp {
+  ($s:expr, $T:ty, $F:ty, $mant:expr, $pairs:expr, $acc:expr) => { int_lerp!($s, $T, $F, $mant, $pairs, $acc, 8) };
+  ($s:expr, $T:ty, $F:ty, $mant:expr, $pairs:expr, $acc:expr, $den:expr) => {{
     let s: &Section = $s;
+    let den: i32 = $den;
     let tname = stringify!($T); let fname = stringify!($F);
     let (tmin, tmax) = (<$T>::MIN as i128, <$T>::MAX as i128);
     for &(from, to) in $pairs.iter() {
         let (from, to): (i128, i128) = (from, to);
-        for k in -8i32..=16 {
-            let fq = Q::new(k as i128, 8);
-            let f = k as $F / 8.0;
+        for k in -den..=2 * den {
+            let fq = Q::new(k as i128, den as i128);
+            let f = k as $F / den as $F;
             let (a, b) = (from as $T, to as $T);
             let exact = Q::int(from).add(fq.mul(Q::int(to - from)));
             let want = round_half_away(exact);
-            let fcl = if k < 0 { Q::ZERO } else if k > 8 { Q::ONE } else { fq };
+            let fcl = if k < 0 { Q::ZERO } else if k > den { Q::ONE } else { fq };
             let want_cl = round_half_away(Q::int(from).add(fcl.mul(Q::int(to - from))));
             // exactness conditions of the float formulas (then the result must equal the oracle exactly)
             let m = $mant;
@@ -119,36 +129,58 @@ macro_rules! int_lerp { ($s:expr, $T:ty, $F:ty, $mant:expr, $pairs:expr, $acc:ex
                 $acc.1 += 1; if to < from { $acc.2 += 1; }
                 let site = format!("Lerp<{}>::{} for {}", fname, label, tname);
                 match got {
-                    Ok(g) => if g as i128 != w { s.violation_w(&site, "wrong-value", json!({"from": from.to_string(), "to": to.to_string(), "factor": format!("{}/8", k), "got": (g as i128).to_string(), "want": w.to_string()}), (from.unsigned_abs() + to.unsigned_abs()).min(u64::MAX as u128) as u64) },
-                    Err(Caught::Panic(m)) => s.violation_w(&site, if m.contains("overflow") { "overflow-panic" } else { "panic" }, json!({"from": from.to_string(), "to": to.to_string(), "factor": format!("{}/8", k), "want": w.to_string(), "panic": m}), (from.unsigned_abs() + to.unsigned_abs()).min(u64::MAX as u128) as u64),
+                    Ok(g) => if g as i128 != w { s.violation_w(&site, "wrong-value", json!({"from": from.to_string(), "to": to.to_string(), "factor": format!("{}/{}", k, den), "got": (g as i128).to_string(), "want": w.to_string()}), (from.unsigned_abs() + to.unsigned_abs()).min(u64::MAX as u128) as u64) },
+                    Err(Caught::Panic(m)) => s.violation_w(&site, if m.contains("overflow") { "overflow-panic" } else { "panic" }, json!({"from": from.to_string(), "to": to.to_string(), "factor": format!("{}/{}", k, den), "want": w.to_string(), "panic": m}), (from.unsigned_abs() + to.unsigned_abs()).min(u64::MAX as u128) as u64),
                     Err(Caught::Unmodelled(u)) => s.unmodelled(u),
                 }
             }
         }
     }
-}} }
+  }};
+}
 
-macro_rules! int_lerp_8bit { ($s:expr, $T:ty) => {{
+macro_rules! int_lerp_8bit {
+  ($s:expr, $T:ty) => { int_lerp_8bit!($s, $T, 8) };
+  ($s:expr, $T:ty, $den:expr) => {{
     let s: &Section = $s;
     let all: Vec<i128> = (<$T>::MIN as i128..=<$T>::MAX as i128).collect();
     all.par_iter().for_each(|&from| {
         let pairs: Vec<(i128, i128)> = all.iter().map(|&to| (from, to)).collect();
         let mut acc = (0u64, 0u64, 0u64);
-        int_lerp!(s, $T, f32, 24, pairs, acc);
-        int_lerp!(s, $T, f64, 53, pairs, acc);
+        int_lerp!(s, $T, f32, 24, pairs, acc, $den);
+        int_lerp!(s, $T, f64, 53, pairs, acc, $den);
         s.evals(acc.1, acc.1); s.class_n("asserted", acc.1); s.class_n("to<from", acc.2); s.class_n("skipped(result outside the type's range)", acc.0);
     });
-    s.sample(json!({"type": stringify!($T), "call": "lerp_unclamped(200u8, 100u8, 0.5f32)" , "want": 150, "pairs": "all 65536 (from,to)", "factors": "k/8, k=-8..16", "forms": 8, "factor_types": ["f32", "f64"]}));
-}} }
-macro_rules! int_lerp_wide { ($s:expr, $T:ty, $vals:expr) => {{
+    s.sample(json!({"type": stringify!($T), "call": "lerp_unclamped(200u8, 100u8, 0.5f32)" , "want": 150, "pairs": "all 65536 (from,to)", "factors": format!("k/{0}, k=-{0}..{1}", $den, 2 * $den), "forms": 8, "factor_types": ["f32", "f64"]}));
+  }};
+}
+macro_rules! int_lerp_wide {
+  ($s:expr, $T:ty, $vals:expr) => { int_lerp_wide!($s, $T, $vals, 8) };
+  ($s:expr, $T:ty, $vals:expr, $den:expr) => {{
     let s: &Section = $s;
     let vals: Vec<i128> = $vals;
     let pairs: Vec<(i128, i128)> = vals.iter().flat_map(|&a| vals.iter().map(move |&b| (a, b))).collect();
-    let mut acc = (0u64, 0u64, 0u64);
-    int_lerp!(s, $T, f32, 24, pairs, acc);
-    int_lerp!(s, $T, f64, 53, pairs, acc);
-    s.evals(acc.1 + acc.0, acc.1); s.class_n("asserted", acc.1); s.class_n("to<from", acc.2); s.class_n("skipped(float formula inexact or result outside range)", acc.0);
-}} }
+    pairs.par_chunks(2048).for_each(|chunk| {
+        let mut acc = (0u64, 0u64, 0u64);
+        int_lerp!(s, $T, f32, 24, chunk, acc, $den);
+        int_lerp!(s, $T, f64, 53, chunk, acc, $den);
+        s.evals(acc.1 + acc.0, acc.1); s.class_n("asserted", acc.1); s.class_n("to<from", acc.2); s.class_n("skipped(float formula inexact or result outside range)", acc.0);
+    });
+  }};
+}
+/// (added) superset of `alph`: odd values, the last odd / first even-only values around 2^24 and 2^53 (where f32 / f64 stop
+/// representing every integer), the largest f32- and f64-representable values below the type's maximum, their negatives;
+/// thorough: additionally every +-2^k, +-(2^k - 1), +-(2^k + 1), +-3*2^k in range.
+fn alph_x(min: i128, max: i128, thorough: bool) -> Vec<i128> {
+    let mut v = alph(min, max);
+    let bits = 128 - (max as u128).leading_zeros() as i128; // value bits of the maximum
+    let p = |k: i128| 1i128 << k;
+    v.extend([7, 101, -100, -7, p(24) - 1, p(24) + 1, p(24) + 2, p(24) - 3, -(p(24) - 1), -(p(24) + 2), p(31), p(32) + 2, p(53) - 1, p(53), p(53) + 1, p(53) + 2, -(p(53) - 1), -(p(53) + 2)]);
+    if bits > 24 { v.push(max + 1 - p(bits - 24)); v.push(max + 1 - p(bits - 23)); if min < 0 { v.push(min + p(bits - 24)); v.push(-(max + 1 - p(bits - 24))); } }
+    if bits > 53 { v.push(max + 1 - p(bits - 53)); v.push(max + 1 - p(bits - 52)); if min < 0 { v.push(min + p(bits - 53)); v.push(-(max + 1 - p(bits - 53))); } }
+    if thorough { for k in 1..bits { for x in [p(k), p(k) - 1, p(k) + 1, 3 * p(k - 1)] { v.push(x); v.push(-x); } } }
+    v.retain(|x| *x >= min && *x <= max); v.sort(); v.dedup(); v
+}
 fn alph(min: i128, max: i128) -> Vec<i128> {
     let mut v = vec![min, min + 1, min / 2, -256, -3, -1, 0, 1, 2, 3, 100, 255, 256, 4096, 1 << 20, 1 << 24, max / 2 + 1, max - 1, max];
     v.retain(|x| *x >= min && *x <= max); v.sort(); v.dedup(); v
@@ -185,12 +217,471 @@ macro_rules! float_lerp { ($s:expr, $F:ident) => {{
     s.sample(json!({"type": stringify!($F), "from": 0.1, "to": -7.3, "factor": "k/32, k=-32..64", "laws": ["f=0 -> from exactly", "precise f=1 -> to exactly", "fast ~ precise ~ exact rational value within 256 eps scale", "lerp == lerp_unclamped(clamp01 f)"]}));
 }} }
 
+
+// =====================================================================================================
+// (added by the clause audit) helpers for the strengthened sections
+// =====================================================================================================
+fn clamp01q(f: Q) -> Q { if f < Q::ZERO { Q::ZERO } else if f > Q::ONE { Q::ONE } else { f } }
+/// exact a + f (b - a) of three floats as a float (None: the i128 rationals overflowed)
+fn exact_lerp(a: f64, b: f64, f: f64) -> Option<f64> {
+    catch(|| { let (aq, bq, fq) = (vx::fl::qf(a), vx::fl::qf(b), vx::fl::qf(f)); aq.add(fq.mul(bq.sub(aq))).to_f64() }).ok()
+}
+
+// ---- float scalars: non-dyadic factors, the remaining forms, extreme endpoints ----------------------------
+macro_rules! float_lerp_more { ($s:expr, $F:ident) => {{
+    let s: &Section = $s;
+    let eps = $F::EPSILON as f64;
+    let site = |n: &str| format!("Lerp<{0}>::{1} for {0}", stringify!($F), n);
+    let mut ends: Vec<$F> = vec![0.1, -7.3, 123.456, -0.001, 1.0 / 3.0, -2.0 / 3.0, 999.999, -64.0, 0.0, 1.0, -1.0e-3, 17.0];
+    let mut facs: Vec<$F> = vec![0.0, 1.0, 0.1, 0.3, 1.0 / 3.0, 0.7, 0.9, -0.37, 1.63, 1.0e-9, 1.0 - $F::EPSILON, $F::EPSILON, -2.5, 3.25];
+    if s.thorough() { for i in 0..24 { ends.push((i as $F * 0.377 - 3.1) * if i % 5 == 0 { 37.0 } else { 1.0 }); } for k in -37i32..=74 { if k != 0 && k != 37 { facs.push(k as $F / 37.0); } } }
+    let (mut differ, mut miss1) = (0u64, 0u64);
+    for &a in &ends { for &b in &ends { for &f in &facs {
+        let cl: $F = if f < 0.0 { 0.0 } else if f > 1.0 { 1.0 } else { f };
+        let fast = <$F as Lerp<$F>>::lerp_unclamped(a, b, f); let prec = <$F as Lerp<$F>>::lerp_unclamped_precise(a, b, f);
+        let fast_c = <$F as Lerp<$F>>::lerp_unclamped(a, b, cl); let prec_c = <$F as Lerp<$F>>::lerp_unclamped_precise(a, b, cl);
+        if fast.to_bits() != prec.to_bits() { differ += 1; }
+        let inp = || json!({"from": a, "to": b, "factor": f});
+        // every derived form is bit-identical to the base form it is defined by (clamp computed here)
+        let forms: [(&str, $F, $F); 18] = [
+            ("&lerp_unclamped", <&$F as Lerp<$F>>::lerp_unclamped(&a, &b, f), fast),
+            ("&lerp_unclamped_precise", <&$F as Lerp<$F>>::lerp_unclamped_precise(&a, &b, f), prec),
+            ("lerp", <$F as Lerp<$F>>::lerp(a, b, f), fast_c),
+            ("lerp_precise", <$F as Lerp<$F>>::lerp_precise(a, b, f), prec_c),
+            ("&lerp", <&$F as Lerp<$F>>::lerp(&a, &b, f), fast_c),
+            ("&lerp_precise", <&$F as Lerp<$F>>::lerp_precise(&a, &b, f), prec_c),
+            ("lerp_unclamped_inclusive_range", <$F as Lerp<$F>>::lerp_unclamped_inclusive_range(a..=b, f), fast),
+            ("lerp_unclamped_precise_inclusive_range", <$F as Lerp<$F>>::lerp_unclamped_precise_inclusive_range(a..=b, f), prec),
+            ("lerp_inclusive_range", <$F as Lerp<$F>>::lerp_inclusive_range(a..=b, f), fast_c),
+            ("lerp_precise_inclusive_range", <$F as Lerp<$F>>::lerp_precise_inclusive_range(a..=b, f), prec_c),
+            ("&lerp_unclamped_inclusive_range", <&$F as Lerp<$F>>::lerp_unclamped_inclusive_range(&a..=&b, f), fast),
+            ("&lerp_unclamped_precise_inclusive_range", <&$F as Lerp<$F>>::lerp_unclamped_precise_inclusive_range(&a..=&b, f), prec),
+            ("&lerp_inclusive_range", <&$F as Lerp<$F>>::lerp_inclusive_range(&a..=&b, f), fast_c),
+            ("&lerp_precise_inclusive_range", <&$F as Lerp<$F>>::lerp_precise_inclusive_range(&a..=&b, f), prec_c),
+            // a Transition is one more route to the same value
+            ("Transition::current_unclamped", LinearTransition::<$F, $F>::with_progress(a, b, f).current_unclamped(), fast),
+            ("Transition::current_unclamped_precise", LinearTransition::<$F, $F>::with_progress(a, b, f).current_unclamped_precise(), prec),
+            ("Transition::into_current", LinearTransition::<$F, $F>::with_progress(a, b, f).into_current(), fast_c),
+            ("Transition::into_current_precise", LinearTransition::<$F, $F>::with_progress(a, b, f).into_current_precise(), prec_c),
+        ];
+        s.evals(20, if a != b && f != 0.0 && f != 1.0 { 20 } else { 0 });
+        for (n, got, base) in forms { if got.to_bits() != base.to_bits() { s.violation(&site(n), "form-differs-from-the-form-it-is-defined-by", json!({"input": inp(), "got": got, "base_form_value": base})); } }
+        if f == 0.0 && (fast != a || prec != a) { s.violation(&site("lerp_unclamped*"), "endpoint-0-not-exact", inp()); }
+        if f == 1.0 { if prec != b { s.violation(&site("lerp_unclamped_precise"), "endpoint-1-not-exact", inp()); } if fast != b { miss1 += 1; } }
+        match exact_lerp(a as f64, b as f64, f as f64) {
+            Some(want) => {
+                let tol = vx::fl::K * eps * (a.abs() as f64).max(b.abs() as f64) * (1.0 + (f.abs() as f64)) * 2.0;
+                for (n, g) in [("lerp_unclamped", fast), ("lerp_unclamped_precise", prec)] {
+                    if !(((g as f64) - want).abs() <= tol) { s.violation(&site(n), "not-affine-within-error-bound", json!({"from": a, "to": b, "factor": f, "got": g, "want": want, "tolerance": tol})); }
+                }
+            }
+            None => s.unmodelled("rational overflow in the oracle"),
+        }
+    } } }
+    s.class_n("fast!=precise (bitwise)", differ); s.class_n("fast form misses `to` at factor 1", miss1);
+    // extreme magnitudes (no rational oracle: laws that need none)
+    let big = $F::MAX / 4.0; let tiny = $F::MIN_POSITIVE; let sub = $F::MIN_POSITIVE * $F::EPSILON;
+    let ext: [$F; 10] = [big, -big, $F::MAX / 2.0, tiny, -tiny, sub, -sub, 3.0 * sub, 1.0, 0.0];
+    for &a in &ext { for &b in &ext { for k in 0..=8i32 {
+        let f = k as $F / 8.0;
+        if !((b as f64) - (a as f64)).abs().is_finite() || ((b as f64) - (a as f64)).abs() > $F::MAX as f64 { continue; }
+        s.class("extreme-magnitude"); s.evals(2, if a != b { 2 } else { 0 });
+        let fast = <$F as Lerp<$F>>::lerp_unclamped(a, b, f); let prec = <$F as Lerp<$F>>::lerp_unclamped_precise(a, b, f);
+        let inp = || json!({"from": a, "to": b, "factor": f});
+        if k == 0 && (fast != a || prec != a) { s.violation(&site("lerp_unclamped*"), "endpoint-0-not-exact", inp()); }
+        if k == 8 && prec != b { s.violation(&site("lerp_unclamped_precise"), "endpoint-1-not-exact", inp()); }
+        // a convex combination stays in the hull of the endpoints up to rounding
+        let (lo, hi) = (a.min(b) as f64, a.max(b) as f64); let slack = 8.0 * eps * (a.abs() as f64).max(b.abs() as f64) + (sub as f64) * 4.0;
+        for (n, g) in [("lerp_unclamped", fast), ("lerp_unclamped_precise", prec)] {
+            if !((g as f64) >= lo - slack && (g as f64) <= hi + slack) { s.violation(&site(n), "convex-combination-leaves-the-hull-of-the-endpoints", json!({"input": inp(), "got": g})); }
+        }
+    } } }
+    // recorded, not asserted: the fast formula forms to - from first, which overflows for finite endpoints of opposite sign near MAX
+    let nan0 = <$F as Lerp<$F>>::lerp_unclamped($F::MAX, -$F::MAX, 0.0);
+    s.meta(&format!("observation: lerp_unclamped({0}::MAX, -{0}::MAX, 0.0)", stringify!($F)), json!(format!("{:?} (the precise form gives {:?}); not asserted: the difference of the endpoints is not a finite {}", nan0, <$F as Lerp<$F>>::lerp_unclamped_precise($F::MAX, -$F::MAX, 0.0), stringify!($F))));
+    s.sample(json!({"type": stringify!($F), "from": 0.1, "to": -7.3, "factor": 0.3, "fast": <$F as Lerp<$F>>::lerp_unclamped(0.1, -7.3, 0.3), "precise": <$F as Lerp<$F>>::lerp_unclamped_precise(0.1, -7.3, 0.3)}));
+}} }
+
+// ---- float vectors: every lane of every type, trait forms bit-identical to the scalar impl, inherent forms to the exact value ----
+macro_rules! vec_lerp_float { ($s:expr, $V:ident, $F:ident, $rounds:expr) => {{
+    let s: &Section = $s;
+    let n = <$V<$F> as VecN<$F>>::N; let name = <$V<$F> as VecN<$F>>::NAME; let fname = stringify!($F);
+    let eps = $F::EPSILON as f64;
+    let mkv = |e: &dyn Fn(usize) -> $F| -> $V<$F> { <$V<$F> as VecN<$F>>::from_elems((0..n).map(|i| e(i)).collect()) };
+    let facs: [$F; 9] = [-0.5, 0.0, 0.1, 0.3, 0.5, 0.7, 1.0, 1.5, 1.0 / 3.0];
+    let cl = |x: $F| -> $F { if x < 0.0 { 0.0 } else if x > 1.0 { 1.0 } else { x } };
+    let (mut evals, mut differ, mut miss1, mut unm) = (0u64, 0u64, 0u64, 0u64);
+    s.class(name);
+    for r in 0..$rounds as usize {
+        // every lane gets its own inexact endpoints (periods 101 and 103 > 64 lanes)
+        let fe = |i: usize| -> $F { (((i + r) * 37 + 11) % 101) as $F * 0.173 - 8.1 };
+        let te = |i: usize| -> $F { (((i + r) * 53 + 29) % 103) as $F * 0.291 - 15.3 };
+        let (a, b) = (mkv(&fe), mkv(&te));
+        let (al, bl) = (a.into_elems(), b.into_elems());
+        for (fi, &f) in facs.iter().enumerate() {
+            let fle = |i: usize| -> $F { facs[(fi + i * 5 + r) % facs.len()] };
+            let fv = mkv(&fle); let fvl = fv.into_elems();
+            let tforms: Vec<(&str, $V<$F>, bool, bool)> = vec![
+                ("Lerp::lerp_unclamped", <$V<$F> as Lerp<$F>>::lerp_unclamped(a, b, f), false, false),
+                ("Lerp::lerp_unclamped_precise", <$V<$F> as Lerp<$F>>::lerp_unclamped_precise(a, b, f), true, false),
+                ("Lerp::lerp", <$V<$F> as Lerp<$F>>::lerp(a, b, f), false, true),
+                ("Lerp::lerp_precise", <$V<$F> as Lerp<$F>>::lerp_precise(a, b, f), true, true),
+                ("&Lerp::lerp_unclamped", <&$V<$F> as Lerp<$F>>::lerp_unclamped(&a, &b, f), false, false),
+                ("&Lerp::lerp_unclamped_precise", <&$V<$F> as Lerp<$F>>::lerp_unclamped_precise(&a, &b, f), true, false),
+                ("&Lerp::lerp", <&$V<$F> as Lerp<$F>>::lerp(&a, &b, f), false, true),
+                ("&Lerp::lerp_precise", <&$V<$F> as Lerp<$F>>::lerp_precise(&a, &b, f), true, true),
+                ("Lerp::lerp_unclamped_inclusive_range", <$V<$F> as Lerp<$F>>::lerp_unclamped_inclusive_range(a..=b, f), false, false),
+                ("Lerp::lerp_unclamped_precise_inclusive_range", <$V<$F> as Lerp<$F>>::lerp_unclamped_precise_inclusive_range(a..=b, f), true, false),
+                ("Lerp::lerp_inclusive_range", <$V<$F> as Lerp<$F>>::lerp_inclusive_range(a..=b, f), false, true),
+                ("Lerp::lerp_precise_inclusive_range", <$V<$F> as Lerp<$F>>::lerp_precise_inclusive_range(a..=b, f), true, true),
+                ("&Lerp::lerp_unclamped_inclusive_range", <&$V<$F> as Lerp<$F>>::lerp_unclamped_inclusive_range(&a..=&b, f), false, false),
+                ("&Lerp::lerp_unclamped_precise_inclusive_range", <&$V<$F> as Lerp<$F>>::lerp_unclamped_precise_inclusive_range(&a..=&b, f), true, false),
+                ("&Lerp::lerp_inclusive_range", <&$V<$F> as Lerp<$F>>::lerp_inclusive_range(&a..=&b, f), false, true),
+                ("&Lerp::lerp_precise_inclusive_range", <&$V<$F> as Lerp<$F>>::lerp_precise_inclusive_range(&a..=&b, f), true, true),
+            ];
+            for i in 0..n {
+                let (sf, sp) = (<$F as Lerp<$F>>::lerp_unclamped(al[i], bl[i], f), <$F as Lerp<$F>>::lerp_unclamped_precise(al[i], bl[i], f));
+                if sf.to_bits() != sp.to_bits() { differ += 1; }
+                if f == 1.0 && sf != bl[i] { miss1 += 1; }
+            }
+            for (label, got, precise, clamped) in tforms {
+                let g = got.into_elems();
+                for i in 0..n {
+                    evals += 1;
+                    let ff = if clamped { cl(f) } else { f };
+                    let w = if precise { <$F as Lerp<$F>>::lerp_unclamped_precise(al[i], bl[i], ff) } else { <$F as Lerp<$F>>::lerp_unclamped(al[i], bl[i], ff) };
+                    if g[i].to_bits() != w.to_bits() { s.violation_w(&format!("{}<{}>::{}", name, fname, label), "lane-is-not-the-scalar-lerp-of-its-own-elements", json!({"lane": i, "from": al[i], "to": bl[i], "factor": f, "got": g[i], "scalar_impl": w, "precise": precise}), i as u64); }
+                }
+            }
+            let iforms: Vec<(&str, $V<$F>, bool, bool, bool)> = vec![
+                ("lerp_unclamped(scalar factor)", $V::lerp_unclamped(a, b, f), false, false, false),
+                ("lerp_unclamped_precise(scalar factor)", $V::lerp_unclamped_precise(a, b, f), true, false, false),
+                ("lerp(scalar factor)", $V::lerp(a, b, f), false, true, false),
+                ("lerp_precise(scalar factor)", $V::lerp_precise(a, b, f), true, true, false),
+                ("lerp_unclamped(vector factor)", $V::lerp_unclamped(a, b, fv), false, false, true),
+                ("lerp_unclamped_precise(vector factor)", $V::lerp_unclamped_precise(a, b, fv), true, false, true),
+                ("lerp(vector factor)", $V::lerp(a, b, fv), false, true, true),
+                ("lerp_precise(vector factor)", $V::lerp_precise(a, b, fv), true, true, true),
+            ];
+            for (label, got, precise, clamped, per_lane) in iforms {
+                let g = got.into_elems();
+                let site = format!("{}<{}>::{}", name, fname, label);
+                for i in 0..n {
+                    evals += 1;
+                    let f0 = if per_lane { fvl[i] } else { f };
+                    let ff = if clamped { cl(f0) } else { f0 };
+                    let inp = || json!({"lane": i, "from": al[i], "to": bl[i], "factor": f0, "got": g[i]});
+                    if ff == 0.0 && g[i] != al[i] { s.violation_w(&site, "endpoint-0-not-exact", inp(), i as u64); }
+                    if ff == 1.0 && precise && g[i] != bl[i] { s.violation_w(&site, "endpoint-1-not-exact", inp(), i as u64); }
+                    match exact_lerp(al[i] as f64, bl[i] as f64, ff as f64) {
+                        Some(want) => { let tol = vx::fl::K * eps * (al[i].abs() as f64).max(bl[i].abs() as f64) * (1.0 + ff.abs() as f64) * 2.0;
+                            if !(((g[i] as f64) - want).abs() <= tol) { s.violation_w(&site, "lane-not-affine-within-error-bound", json!({"input": inp(), "want": want, "tolerance": tol}), i as u64); } }
+                        None => unm += 1,
+                    }
+                }
+            }
+        }
+    }
+    s.evals(evals, evals); s.class_n("lanes where the scalar fast and precise forms differ bitwise", differ); s.class_n("lanes where the fast form misses `to` at factor 1", miss1);
+    for _ in 0..unm { s.unmodelled("rational overflow in the oracle"); }
+}} }
+
+// ---- vectors of integers through the Lerp trait ------------------------------------------------------------
+macro_rules! vec_lerp_int { ($s:expr, $V:ident, $T:ty, $F:ident) => {{
+    let s: &Section = $s;
+    let n = <$V<$T> as VecN<$T>>::N; let name = <$V<$T> as VecN<$T>>::NAME;
+    let (tmin, tmax) = (<$T>::MIN as i128, <$T>::MAX as i128);
+    let span = tmax - tmin + 1;
+    let mut evals = 0u64; let mut desc = 0u64;
+    for r in 0..3usize {
+        // lane i: from, to anywhere in the type's range (descending and ascending lanes, the limits in lanes 0/1 of round 0)
+        let fe = |i: usize| -> i128 { if r == 0 && i == 0 { tmax } else if r == 0 && i == 1 { tmin } else { tmin + ((i as i128 + r as i128) * 37 + 200) % span } };
+        let te = |i: usize| -> i128 { if r == 0 && i == 0 { tmin } else if r == 0 && i == 1 { tmax } else { tmin + ((i as i128 + 2 * r as i128) * 101 + 3) % span } };
+        let a = <$V<$T> as VecN<$T>>::from_elems((0..n).map(|i| fe(i) as $T).collect());
+        let b = <$V<$T> as VecN<$T>>::from_elems((0..n).map(|i| te(i) as $T).collect());
+        for k in -8i32..=16 {
+            let f = k as $F / 8.0; let fq = Q::new(k as i128, 8);
+            let forms: Vec<(&str, $V<$T>, bool)> = vec![
+                ("Lerp::lerp_unclamped", <$V<$T> as Lerp<$F>>::lerp_unclamped(a, b, f), false),
+                ("Lerp::lerp_unclamped_precise", <$V<$T> as Lerp<$F>>::lerp_unclamped_precise(a, b, f), false),
+                ("Lerp::lerp", <$V<$T> as Lerp<$F>>::lerp(a, b, f), true),
+                ("Lerp::lerp_precise", <$V<$T> as Lerp<$F>>::lerp_precise(a, b, f), true),
+                ("&Lerp::lerp_unclamped", <&$V<$T> as Lerp<$F>>::lerp_unclamped(&a, &b, f), false),
+                ("&Lerp::lerp_unclamped_precise", <&$V<$T> as Lerp<$F>>::lerp_unclamped_precise(&a, &b, f), false),
+                ("&Lerp::lerp", <&$V<$T> as Lerp<$F>>::lerp(&a, &b, f), true),
+                ("&Lerp::lerp_precise", <&$V<$T> as Lerp<$F>>::lerp_precise(&a, &b, f), true),
+                ("Lerp::lerp_inclusive_range", <$V<$T> as Lerp<$F>>::lerp_inclusive_range(a..=b, f), true),
+                ("&Lerp::lerp_unclamped_precise_inclusive_range", <&$V<$T> as Lerp<$F>>::lerp_unclamped_precise_inclusive_range(&a..=&b, f), false),
+            ];
+            for (label, got, clamped) in forms {
+                let g = got.into_elems();
+                for i in 0..n {
+                    let (from, to) = (fe(i), te(i));
+                    let ff = if clamped { clamp01q(fq) } else { fq };
+                    let want = round_half_away(Q::int(from).add(ff.mul(Q::int(to - from))));
+                    if want < tmin || want > tmax { continue; }
+                    evals += 1; if to < from { desc += 1; }
+                    if g[i] as i128 != want { s.violation_w(&format!("{}<{}>::{} (factor {})", name, stringify!($T), label, stringify!($F)), "lane-is-not-the-rounded-interpolation-of-its-own-elements", json!({"lane": i, "from": from.to_string(), "to": to.to_string(), "factor": format!("{}/8", k), "got": (g[i] as i128).to_string(), "want": want.to_string()}), i as u64); }
+                }
+            }
+        }
+    }
+    s.evals(evals, evals); s.class_n("to<from", desc); s.class(name);
+}} }
+
+// ---- integer scalars: range forms and non-dyadic factors ---------------------------------------------------
+macro_rules! int_lerp_extra { ($s:expr, $T:ty, $F:ident, $vals:expr, $acc:expr) => {{
+    let s: &Section = $s;
+    let (tmin, tmax) = (<$T>::MIN as i128, <$T>::MAX as i128);
+    let eps = $F::EPSILON as f64;
+    let facs: [$F; 12] = [0.1, 0.3, 1.0 / 3.0, 0.7, 0.9, -0.3, 1.7, 1.0e-3, 0.999, 0.45, 2.0 / 3.0, -0.85];
+    let vals: &Vec<i128> = $vals;
+    for &from in vals.iter() { for &to in vals.iter() {
+        let (a, b) = (from as $T, to as $T);
+        // (1) the four range forms and their reference twins on the dyadic grid (exact oracle)
+        for k in -8i32..=16 {
+            let f = k as $F / 8.0; let fq = Q::new(k as i128, 8);
+            let want = round_half_away(Q::int(from).add(fq.mul(Q::int(to - from))));
+            let want_cl = round_half_away(Q::int(from).add(clamp01q(fq).mul(Q::int(to - from))));
+            let forms: [(&str, i128, $T); 8] = [
+                ("lerp_unclamped_inclusive_range", want, <$T as Lerp<$F>>::lerp_unclamped_inclusive_range(a..=b, f)),
+                ("lerp_unclamped_precise_inclusive_range", want, <$T as Lerp<$F>>::lerp_unclamped_precise_inclusive_range(a..=b, f)),
+                ("lerp_inclusive_range", want_cl, <$T as Lerp<$F>>::lerp_inclusive_range(a..=b, f)),
+                ("lerp_precise_inclusive_range", want_cl, <$T as Lerp<$F>>::lerp_precise_inclusive_range(a..=b, f)),
+                ("&lerp_unclamped_inclusive_range", want, <&$T as Lerp<$F>>::lerp_unclamped_inclusive_range(&a..=&b, f)),
+                ("&lerp_unclamped_precise_inclusive_range", want, <&$T as Lerp<$F>>::lerp_unclamped_precise_inclusive_range(&a..=&b, f)),
+                ("&lerp_inclusive_range", want_cl, <&$T as Lerp<$F>>::lerp_inclusive_range(&a..=&b, f)),
+                ("&lerp_precise_inclusive_range", want_cl, <&$T as Lerp<$F>>::lerp_precise_inclusive_range(&a..=&b, f)),
+            ];
+            for (label, w, g) in forms {
+                if w < tmin || w > tmax { $acc.2 += 1; continue; }
+                $acc.0 += 1;
+                if g as i128 != w { s.violation_w(&format!("Lerp<{}>::{} for {}", stringify!($F), label, stringify!($T)), "wrong-value", json!({"from": from.to_string(), "to": to.to_string(), "factor": format!("{}/8", k), "got": (g as i128).to_string(), "want": w.to_string()}), (from.unsigned_abs() + to.unsigned_abs()) as u64); }
+            }
+        }
+        // (2) factors that are not multiples of 1/8: the float factor is taken exactly; asserted when the exact value is farther
+        //     from a rounding tie than the float evaluation can err (then every correct rounding gives the same integer)
+        for &f in &facs {
+            let fq = vx::fl::qf(f as f64);
+            for (clamped, ff) in [(false, fq), (true, clamp01q(fq))] {
+                let exact = Q::int(from).add(ff.mul(Q::int(to - from)));
+                let want = round_half_away(exact);
+                let tie_dist = exact.sub(exact.floor()).sub(Q::new(1, 2)).abs().to_f64();
+                let margin = 8.0 * eps * (from.unsigned_abs().max(to.unsigned_abs()).max(1) as f64) * (1.0 + (f.abs() as f64));
+                if want < tmin || want > tmax || tie_dist <= margin { $acc.2 += 1; continue; }
+                let (fv, pv, rfv, rpv) = if clamped { (<$T as Lerp<$F>>::lerp(a, b, f), <$T as Lerp<$F>>::lerp_precise(a, b, f), <&$T as Lerp<$F>>::lerp(&a, &b, f), <&$T as Lerp<$F>>::lerp_precise(&a, &b, f)) }
+                                           else { (<$T as Lerp<$F>>::lerp_unclamped(a, b, f), <$T as Lerp<$F>>::lerp_unclamped_precise(a, b, f), <&$T as Lerp<$F>>::lerp_unclamped(&a, &b, f), <&$T as Lerp<$F>>::lerp_unclamped_precise(&a, &b, f)) };
+                for (label, g) in [(if clamped { "lerp" } else { "lerp_unclamped" }, fv), (if clamped { "lerp_precise" } else { "lerp_unclamped_precise" }, pv), (if clamped { "&lerp" } else { "&lerp_unclamped" }, rfv), (if clamped { "&lerp_precise" } else { "&lerp_unclamped_precise" }, rpv)] {
+                    $acc.1 += 1;
+                    if g as i128 != want { s.violation_w(&format!("Lerp<{}>::{} for {}", stringify!($F), label, stringify!($T)), "wrong-value-at-a-non-dyadic-factor", json!({"from": from.to_string(), "to": to.to_string(), "factor": f, "got": (g as i128).to_string(), "want": want.to_string(), "exact": format!("{}", exact)}), (from.unsigned_abs() + to.unsigned_abs()) as u64); }
+                }
+            }
+        }
+    } }
+}} }
+
+
+// ---- quaternions in floats: nlerp direction, non-unit inputs, slerp on general pairs against a Gram-Schmidt reference ----
+fn unit_dirs(thorough: bool) -> Vec<[f64; 3]> {
+    let mut v = Vec::new();
+    for x in -1..=1 { for y in -1..=1 { for z in -1..=1 { if (x, y, z) > (0, 0, 0) { v.push([x as f64, y as f64, z as f64]); } } } }
+    v.extend([[1.0, 2.0, 3.0], [-2.0, 1.0, 5.0], [0.3, -0.9, 0.1]]);
+    if thorough { v.extend([[4.0, -1.0, 0.5], [-1.0, -7.0, 2.0], [0.01, 1.0, -0.02], [5.0, 5.0, -4.0], [-3.0, 0.2, 0.1]]); }
+    for d in v.iter_mut() { let n = (d[0] * d[0] + d[1] * d[1] + d[2] * d[2]).sqrt(); for c in d.iter_mut() { *c /= n; } }
+    v
+}
+macro_rules! quat_float { ($s:expr, $F:ident) => {{
+    let s: &Section = $s;
+    let eps = $F::EPSILON as f64; let fname = stringify!($F);
+    let dirs = unit_dirs(s.thorough());
+    // rotation angles beyond pi give w < 0, i.e. both signs of every rotation occur and so does the sign-flip branch
+    let angs: Vec<f64> = if s.thorough() { vec![0.3, 0.7, 1.9, 2.3, 3.9, 4.4, 5.5, 6.0] } else { vec![0.7, 2.3, 3.9, 5.5] };
+    let mut qs: Vec<Quaternion<$F>> = Vec::new();
+    for a in &dirs { for &ang in &angs { let (sh, ch) = ((ang / 2.0).sin(), (ang / 2.0).cos()); qs.push(Quaternion { x: (a[0] * sh) as $F, y: (a[1] * sh) as $F, z: (a[2] * sh) as $F, w: ch as $F }); } }
+    let arr = |r: Quaternion<$F>| -> [f64; 4] { [r.x as f64, r.y as f64, r.z as f64, r.w as f64] };
+    let bits = |r: Quaternion<$F>| [r.x.to_bits(), r.y.to_bits(), r.z.to_bits(), r.w.to_bits()];
+    let dot4 = |p: [f64; 4], q: [f64; 4]| p[0] * q[0] + p[1] * q[1] + p[2] * q[2] + p[3] * q[3];
+    let near = |p: [f64; 4], q: [f64; 4], t: f64| (0..4).all(|i| (p[i] - q[i]).abs() <= t);
+    let facs: [f64; 11] = [-0.5, -0.25, 0.0, 0.1, 0.25, 0.5, 0.7, 0.75, 1.0, 1.25, 1.5];
+    let (mut n_flip, mut n_direct, mut n_nlerp, mut n_nonunit, mut n_arc, mut evals) = (0u64, 0u64, 0u64, 0u64, 0u64, 0u64);
+    for (ia, &a) in qs.iter().enumerate() { for (ib, &b) in qs.iter().enumerate() { for &f64f in &facs {
+        let f = f64f as $F; let ff = f as f64;
+        let fc: $F = if f < 0.0 { 0.0 } else if f > 1.0 { 1.0 } else { f };
+        let (aa, ba) = (arr(a), arr(b));
+        let inp = || json!({"from": aa, "to": ba, "factor": ff});
+        // ---- nlerp: the result is the component interpolation scaled to unit length (also for non-unit inputs)
+        for (sa, sb) in [(1.0 as $F, 1.0 as $F), (3.0, 0.25)] {
+            let (a2, b2) = (Quaternion { x: a.x * sa, y: a.y * sa, z: a.z * sa, w: a.w * sa }, Quaternion { x: b.x * sb, y: b.y * sb, z: b.z * sb, w: b.w * sb });
+            let (p, q) = (arr(a2), arr(b2));
+            for clamped in [false, true] {
+                let t = if clamped { fc as f64 } else { ff };
+                let l = [p[0] + t * (q[0] - p[0]), p[1] + t * (q[1] - p[1]), p[2] + t * (q[2] - p[2]), p[3] + t * (q[3] - p[3])];
+                let nl = dot4(l, l).sqrt(); let mag = dot4(p, p).sqrt().max(dot4(q, q).sqrt());
+                if nl < 0.05 * mag { continue; }   // the interpolated components pass near zero: no direction to normalize
+                let want = [l[0] / nl, l[1] / nl, l[2] / nl, l[3] / nl];
+                let tol = 64.0 * eps * (1.0 + t.abs()) * mag / nl;
+                let forms: Vec<(&str, Quaternion<$F>)> = if clamped { vec![
+                    ("Lerp::lerp", <Quaternion<$F> as Lerp<$F>>::lerp(a2, b2, f)), ("Lerp::lerp_precise", <Quaternion<$F> as Lerp<$F>>::lerp_precise(a2, b2, f)),
+                    ("&Lerp::lerp", <&Quaternion<$F> as Lerp<$F>>::lerp(&a2, &b2, f)), ("&Lerp::lerp_precise", <&Quaternion<$F> as Lerp<$F>>::lerp_precise(&a2, &b2, f)),
+                    ("Lerp::lerp_inclusive_range", <Quaternion<$F> as Lerp<$F>>::lerp_inclusive_range(a2..=b2, f)), ("&Lerp::lerp_precise_inclusive_range", <&Quaternion<$F> as Lerp<$F>>::lerp_precise_inclusive_range(&a2..=&b2, f)),
+                ] } else { vec![
+                    ("Lerp::lerp_unclamped", <Quaternion<$F> as Lerp<$F>>::lerp_unclamped(a2, b2, f)), ("Lerp::lerp_unclamped_precise", <Quaternion<$F> as Lerp<$F>>::lerp_unclamped_precise(a2, b2, f)),
+                    ("&Lerp::lerp_unclamped", <&Quaternion<$F> as Lerp<$F>>::lerp_unclamped(&a2, &b2, f)), ("&Lerp::lerp_unclamped_precise", <&Quaternion<$F> as Lerp<$F>>::lerp_unclamped_precise(&a2, &b2, f)),
+                    ("Lerp::lerp_unclamped_inclusive_range", <Quaternion<$F> as Lerp<$F>>::lerp_unclamped_inclusive_range(a2..=b2, f)), ("&Lerp::lerp_unclamped_precise_inclusive_range", <&Quaternion<$F> as Lerp<$F>>::lerp_unclamped_precise_inclusive_range(&a2..=&b2, f)),
+                ] };
+                for (name, r) in forms {
+                    evals += 1; n_nlerp += 1; if sa != 1.0 { n_nonunit += 1; }
+                    let g = arr(r);
+                    let site = format!("{} for Quaternion<{}>", name, fname);
+                    if !((dot4(g, g).sqrt() - 1.0).abs() <= 64.0 * eps) { s.violation(&site, "not-unit", json!({"from": p, "to": q, "factor": ff, "norm": dot4(g, g).sqrt()})); }
+                    if !near(g, want, tol) { s.violation(&site, "not-the-normalized-component-interpolation", json!({"from": p, "to": q, "factor": ff, "got": g, "want": want, "tolerance": tol})); }
+                }
+            }
+        }
+        // ---- slerp of unit quaternions
+        let r = Quaternion::slerp_unclamped(a, b, f);
+        let rc = Quaternion::slerp_unclamped(a, b, fc);
+        let forms: [(&str, Quaternion<$F>, Quaternion<$F>); 5] = [
+            ("Slerp::slerp_unclamped for Quaternion", <Quaternion<$F> as Slerp<$F>>::slerp_unclamped(a, b, f), r),
+            ("Slerp::slerp_unclamped for &Quaternion", <&Quaternion<$F> as Slerp<$F>>::slerp_unclamped(&a, &b, f), r),
+            ("Quaternion::slerp", Quaternion::slerp(a, b, f), rc),
+            ("Slerp::slerp for Quaternion", <Quaternion<$F> as Slerp<$F>>::slerp(a, b, f), rc),
+            ("Slerp::slerp for &Quaternion", <&Quaternion<$F> as Slerp<$F>>::slerp(&a, &b, f), rc),
+        ];
+        for (name, g, base) in forms { evals += 1; if bits(g) != bits(base) { s.violation(&format!("{}<{}>", name, fname), "differs-from-slerp_unclamped-at-the-(clamped)-factor", json!({"input": inp(), "got": arr(g), "slerp_unclamped": arr(base)})); } }
+        evals += 1;
+        let c = dot4(aa, ba);
+        if c.abs() < 1e-6 { continue; }               // both arcs equally short: the property leaves the choice open
+        let sg = if c < 0.0 { n_flip += 1; -1.0 } else { n_direct += 1; 1.0 };
+        let bs = [sg * ba[0], sg * ba[1], sg * ba[2], sg * ba[3]];
+        let u = [bs[0] - c.abs() * aa[0], bs[1] - c.abs() * aa[1], bs[2] - c.abs() * aa[2], bs[3] - c.abs() * aa[3]];
+        let su = dot4(u, u).sqrt();
+        let g = arr(r);
+        let site = format!("Quaternion::slerp_unclamped<{}>", fname);
+        if su < 1e-3 {
+            // (nearly) the same rotation: every factor gives that rotation
+            if ia == ib && !near(g, aa, 64.0 * eps) { s.violation(&site, "from==to-not-fixed", inp()); }
+            continue;
+        }
+        let theta = su.atan2(c.abs());
+        let tol = 256.0 * eps * (1.0 + ff.abs()) * 4.0 / su;
+        let e2 = [u[0] / su, u[1] / su, u[2] / su, u[3] / su];
+        let (sn, cs) = ((ff * theta).sin(), (ff * theta).cos());
+        let want = [cs * aa[0] + sn * e2[0], cs * aa[1] + sn * e2[1], cs * aa[2] + sn * e2[2], cs * aa[3] + sn * e2[3]];
+        n_arc += 1;
+        if !((dot4(g, g).sqrt() - 1.0).abs() <= tol) { s.violation(&site, "not-unit", json!({"input": inp(), "norm": dot4(g, g).sqrt(), "tolerance": tol})); }
+        if !near(g, want, tol) { s.violation(&site, "not-on-the-shorter-great-arc-at-constant-angular-speed", json!({"input": inp(), "got": g, "want": want, "tolerance": tol, "arc_angle": theta})); }
+        if s.wants_sample() && ia + 3 == ib && f64f == 0.25 { s.sample(json!({"input": inp(), "slerp": g, "gram_schmidt_reference": want})); }
+    } } }
+    s.evals(evals, evals);
+    s.class_n("sign-flip-branch (dot < 0)", n_flip); s.class_n("direct-branch (dot > 0)", n_direct); s.class_n("nlerp-direction", n_nlerp); s.class_n("nlerp-of-non-unit-inputs", n_nonunit); s.class_n("general-pair-on-the-arc", n_arc);
+}} }
+
+// ---- Transform with inexact endpoints, mixed element types, clamped and range forms -------------------------
+macro_rules! transform_more { ($s:expr, $P:ty, $O:ident, $S:ty, $Fac:ident, $mkp:expr, $mks:expr, $label:expr) => {{
+    let s: &Section = $s;
+    let label: &str = $label;
+    let axes: [[f64; 3]; 4] = [[1.0 / 3.0, 2.0 / 3.0, 2.0 / 3.0], [2.0 / 7.0, -3.0 / 7.0, 6.0 / 7.0], [0.0, 0.6, 0.8], [1.0, 0.0, 0.0]];
+    let mk = |i: usize| -> Transform<$P, $O, $S> {
+        let a = 0.37 + i as f64 * 0.83; let ax = axes[i % 4]; let sg = if i % 3 == 2 { -1.0 } else { 1.0 };
+        let (sh, ch) = ((a / 2.0).sin() * sg, (a / 2.0).cos() * sg);
+        Transform { position: ($mkp)(i), orientation: Quaternion { x: (ax[0] * sh) as $O, y: (ax[1] * sh) as $O, z: (ax[2] * sh) as $O, w: ch as $O }, scale: ($mks)(i) }
+    };
+    let mut facs: Vec<$Fac> = vec![-0.4, 0.0, 0.3, 0.5, 0.7, 1.0, 1.6, 1.0 / 3.0];
+    let nt = if s.thorough() { for k in -7i32..=21 { if k % 7 != 0 { facs.push(k as $Fac / 7.0); } } 8 } else { 7 };
+    let (mut differ, mut flips, mut evals) = (0u64, 0u64, 0u64);
+    for i in 0..nt { for j in 0..nt { for &t in &facs {
+        let (a, b) = (mk(i), mk(j));
+        let tc: $Fac = if t < 0.0 { 0.0 } else if t > 1.0 { 1.0 } else { t };
+        let lanes_p = |t: $Fac, precise: bool| -> [$P; 3] { let l = |x: $P, y: $P| if precise { <$P as Lerp<$Fac>>::lerp_unclamped_precise(x, y, t) } else { <$P as Lerp<$Fac>>::lerp_unclamped(x, y, t) }; [l(a.position.x, b.position.x), l(a.position.y, b.position.y), l(a.position.z, b.position.z)] };
+        let lanes_s = |t: $Fac, precise: bool| -> [$S; 3] { let l = |x: $S, y: $S| if precise { <$S as Lerp<$Fac>>::lerp_unclamped_precise(x, y, t) } else { <$S as Lerp<$Fac>>::lerp_unclamped(x, y, t) }; [l(a.scale.x, b.scale.x), l(a.scale.y, b.scale.y), l(a.scale.z, b.scale.z)] };
+        let so = |t: $Fac| { let r = Quaternion::slerp_unclamped(a.orientation, b.orientation, t as $O); [r.x, r.y, r.z, r.w] };
+        if lanes_p(t, false) != lanes_p(t, true) || lanes_s(t, false) != lanes_s(t, true) { differ += 1; }
+        let dotab = a.orientation.x * b.orientation.x + a.orientation.y * b.orientation.y + a.orientation.z * b.orientation.z + a.orientation.w * b.orientation.w;
+        if dotab < 0.0 { flips += 1; }
+        type TT = Transform<$P, $O, $S>;
+        let cases: Vec<(&str, TT, bool, bool)> = vec![
+            ("Lerp::lerp_unclamped for Transform", <TT as Lerp<$Fac>>::lerp_unclamped(a, b, t), false, false),
+            ("Lerp::lerp_unclamped_precise for Transform", <TT as Lerp<$Fac>>::lerp_unclamped_precise(a, b, t), true, false),
+            ("Lerp::lerp_unclamped for &Transform", <&TT as Lerp<$Fac>>::lerp_unclamped(&a, &b, t), false, false),
+            ("Lerp::lerp_unclamped_precise for &Transform", <&TT as Lerp<$Fac>>::lerp_unclamped_precise(&a, &b, t), true, false),
+            ("Lerp::lerp for Transform", <TT as Lerp<$Fac>>::lerp(a, b, t), false, true),
+            ("Lerp::lerp_precise for Transform", <TT as Lerp<$Fac>>::lerp_precise(a, b, t), true, true),
+            ("Lerp::lerp for &Transform", <&TT as Lerp<$Fac>>::lerp(&a, &b, t), false, true),
+            ("Lerp::lerp_precise for &Transform", <&TT as Lerp<$Fac>>::lerp_precise(&a, &b, t), true, true),
+            ("Lerp::lerp_unclamped_inclusive_range for Transform", <TT as Lerp<$Fac>>::lerp_unclamped_inclusive_range(a..=b, t), false, false),
+            ("Lerp::lerp_unclamped_precise_inclusive_range for Transform", <TT as Lerp<$Fac>>::lerp_unclamped_precise_inclusive_range(a..=b, t), true, false),
+            ("Lerp::lerp_inclusive_range for &Transform", <&TT as Lerp<$Fac>>::lerp_inclusive_range(&a..=&b, t), false, true),
+            ("Lerp::lerp_precise_inclusive_range for &Transform", <&TT as Lerp<$Fac>>::lerp_precise_inclusive_range(&a..=&b, t), true, true),
+        ];
+        for (name, r, precise, clamped) in cases {
+            evals += 1;
+            let tt = if clamped { tc } else { t };
+            let site = format!("{} [{}]", name, label);
+            let d = || json!({"i": i, "j": j, "t": t as f64, "got_position": format!("{:?}", r.position), "got_scale": format!("{:?}", r.scale), "got_orientation": format!("{:?}", r.orientation)});
+            if [r.position.x, r.position.y, r.position.z] != lanes_p(tt, precise) { s.violation(&site, "position-is-not-the-lerp-of-positions", d()); }
+            if [r.scale.x, r.scale.y, r.scale.z] != lanes_s(tt, precise) { s.violation(&site, "scale-is-not-the-lerp-of-scales", d()); }
+            if [r.orientation.x, r.orientation.y, r.orientation.z, r.orientation.w] != so(tt) { s.violation(&site, "orientation-is-not-the-slerp-of-orientations", d()); }
+            // the endpoints themselves, independent of the part functions
+            let eo = 64.0 * ($O::EPSILON as f64);
+            let qn = |q: Quaternion<$O>, sg: f64| (r.orientation.x as f64 - sg * q.x as f64).abs() <= eo && (r.orientation.y as f64 - sg * q.y as f64).abs() <= eo && (r.orientation.z as f64 - sg * q.z as f64).abs() <= eo && (r.orientation.w as f64 - sg * q.w as f64).abs() <= eo;
+            if tt == 0.0 && (r.position != a.position || r.scale != a.scale || !qn(a.orientation, 1.0)) { s.violation(&site, "factor-0-is-not-from", d()); }
+            if tt == 1.0 && ((precise && (r.position != b.position || r.scale != b.scale)) || !(qn(b.orientation, 1.0) || qn(b.orientation, -1.0))) { s.violation(&site, "factor-1-is-not-to", d()); }
+        }
+    } } }
+    s.evals(evals, evals); s.class_n(&format!("fast!=precise [{}]", label), differ); s.class_n("orientations-in-opposite-hemispheres", flips); s.class(label);
+}} }
+
+// ---- Transition: distinguishing inputs, sequences of progress updates ---------------------------------------
+macro_rules! transition_more { ($s:expr, $T:ty, $P:ident, $a:expr, $b:expr, $label:expr, $acc:expr) => {{
+    let s: &Section = $s;
+    fn sq(x: $P) -> $P { x * x }
+    fn inv(x: $P) -> $P { 1.0 - x }
+    fn smooth(x: $P) -> $P { x * x * (3.0 - 2.0 * x) }
+    fn ident(x: $P) -> $P { x }
+    let (a, b): ($T, $T) = ($a, $b);
+    let mut ps: Vec<$P> = vec![-0.5, 0.0, 0.3, 0.25, 0.7, 1.0, 1.5, 1.0 / 3.0, 0.9];
+    if s.thorough() { for k in -11i32..=33 { ps.push(((k * 7) % 45) as $P / 22.0); } }
+    for (mname, mf) in [("x^2", sq as fn($P) -> $P), ("1-x", inv as fn($P) -> $P), ("3x^2-2x^3", smooth as fn($P) -> $P), ("x", ident as fn($P) -> $P)] {
+        // one transition object driven through the whole progress sequence (the by-reference accessors must not disturb it)
+        let mut t = Transition::<$T, ProgressMapperFn<$P>, $P>::with_mapper(a, b, ProgressMapperFn(mf));
+        for &p in &ps {
+            t.progress = p;
+            let m = mf(p);
+            let site = |n: &str| format!("Transition<{}, mapper {}>::{}", $label, mname, n);
+            let (wl, wu, wlp, wup) = (<$T as Lerp<$P>>::lerp(a, b, m), <$T as Lerp<$P>>::lerp_unclamped(a, b, m), <$T as Lerp<$P>>::lerp_precise(a, b, m), <$T as Lerp<$P>>::lerp_unclamped_precise(a, b, m));
+            if wu != wup { $acc.0 += 1; } if wl != wu { $acc.1 += 1; }
+            let d = || json!({"progress": p as f64, "mapped": m as f64, "start": format!("{:?}", a), "end": format!("{:?}", b)});
+            $acc.2 += 8;
+            if t.current() != wl { s.violation(&site("current"), "not-the-lerp-at-mapped-progress", d()); }
+            if t.current_unclamped() != wu { s.violation(&site("current_unclamped"), "not-the-lerp-at-mapped-progress", d()); }
+            if t.current_precise() != wlp { s.violation(&site("current_precise"), "not-the-lerp-at-mapped-progress", d()); }
+            if t.current_unclamped_precise() != wup { s.violation(&site("current_unclamped_precise"), "not-the-lerp-at-mapped-progress", d()); }
+            if t.start != a || t.end != b || t.progress != p { s.violation(&site("current*"), "accessor-changed-the-transition", d()); }
+            if t.into_current() != wl { s.violation(&site("into_current"), "not-the-lerp-at-mapped-progress", d()); }
+            if t.into_current_unclamped() != wu { s.violation(&site("into_current_unclamped"), "not-the-lerp-at-mapped-progress", d()); }
+            if t.into_current_precise() != wlp { s.violation(&site("into_current_precise"), "not-the-lerp-at-mapped-progress", d()); }
+            if t.into_current_unclamped_precise() != wup { s.violation(&site("into_current_unclamped_precise"), "not-the-lerp-at-mapped-progress", d()); }
+        }
+    }
+    // linear transition: the progress is the factor
+    for &p in &ps {
+        let lt = LinearTransition::<$T, $P>::with_progress(a, b, p);
+        $acc.2 += 4;
+        let site = |n: &str| format!("LinearTransition<{}>::{}", $label, n);
+        if lt.current() != <$T as Lerp<$P>>::lerp(a, b, p) { s.violation(&site("current"), "not-the-lerp-at-progress", json!({"progress": p as f64})); }
+        if lt.current_unclamped_precise() != <$T as Lerp<$P>>::lerp_unclamped_precise(a, b, p) { s.violation(&site("current_unclamped_precise"), "not-the-lerp-at-progress", json!({"progress": p as f64})); }
+        if lt.into_current_precise() != <$T as Lerp<$P>>::lerp_precise(a, b, p) { s.violation(&site("into_current_precise"), "not-the-lerp-at-progress", json!({"progress": p as f64})); }
+        if lt.into_current_unclamped() != <$T as Lerp<$P>>::lerp_unclamped(a, b, p) { s.violation(&site("into_current_unclamped"), "not-the-lerp-at-progress", json!({"progress": p as f64})); }
+    }
+}} }
+
 fn main() {
     let rep = Report::start("C12", "exploration");
     let d = if rep.thorough() { 6 } else { 4 };
 
     rep.section("generic vector lerp (13 types, inherent + Lerp trait, value + reference, scalar + per-element factor)",
-        "each of 18 function forms of each of the 13 vector types is run once on free term generators (operators and the scalar Lerp/Clamp impls are uninterpreted constructors); every lane's resulting term must mention only its own lane's from/to/factor and, interpreted exactly, equal from + clamp?(f)(to-from) on every point of L(3,D), D >= degree 2 (+2 quick, +4 thorough) with factors (c-2)/2 covering <0, 0, 1/2, 1, >1; non-trivial: all", true, true, |s| {
+        "each of 24 function forms (18 + per-element factor through the clamped inherent forms + the 4 inclusive-range forms of the reference impl) of each of the 13 vector types is run once on free term generators (operators and the scalar Lerp/Clamp impls are uninterpreted constructors); every lane's resulting term must mention only its own lane's from/to/factor and, interpreted exactly, equal from + clamp?(f)(to-from) on every point of L(3,D), D >= degree 2 (+2 quick, +4 thorough) with factors (c-2)/2 covering <0, 0, 1/2, 1, >1; non-trivial: all", true, true, |s| {
         s.require_classes(&["Vec2", "Vec3", "Vec4", "Vec8", "Vec16", "Vec32", "Vec64", "Extent2", "Extent3", "Rgb", "Rgba", "Uv", "Uvw"]);
         for_all_vecs!(V => { vec_lerp_generic!(s, V, d); });
     });
@@ -219,16 +710,21 @@ fn main() {
         });
     });
 
-    let r_int = "ALL 65536 (from,to) pairs of the 8-bit type x factors k/8 (k=-8..16) x factor types {f32,f64} x {fast, precise} x {by value, by reference} x {clamped, unclamped}; oracle: exact rational from + f(to-from) rounded half away from zero, asserted whenever it lies in the type's range (8-bit endpoints and 3-bit factors make the float formulas exact, so no tolerance); non-trivial: all asserted cases";
-    rep.section("integer Lerp: i8 exhaustive", r_int, true, false, |s| { s.require_classes(&["asserted", "to<from"]); int_lerp_8bit!(s, i8); });
-    rep.section("integer Lerp: u8 exhaustive", r_int, true, false, |s| { s.require_classes(&["asserted", "to<from"]); int_lerp_8bit!(s, u8); });
+    let r_int = "ALL 65536 (from,to) pairs of the 8-bit type x factors k/8 (k=-8..16; thorough: k/64, k=-64..128, see meta) x factor types {f32,f64} x {fast, precise} x {by value, by reference} x {clamped, unclamped}; oracle: exact rational from + f(to-from) rounded half away from zero, asserted whenever it lies in the type's range (8-bit endpoints and 3-bit factors make the float formulas exact, so no tolerance); non-trivial: all asserted cases";
+    let den8: i32 = if rep.thorough() { 64 } else { 8 };   // (added) thorough: factor grid k/64, k = -64..128 (contains the quick grid)
+    let th = rep.thorough();
+    rep.section("integer Lerp: i8 exhaustive", r_int, true, false, |s| { s.require_classes(&["asserted", "to<from"]); s.meta("factor_grid_denominator", json!(den8)); int_lerp_8bit!(s, i8, den8); });
+    rep.section("integer Lerp: u8 exhaustive", r_int, true, false, |s| { s.require_classes(&["asserted", "to<from"]); s.meta("factor_grid_denominator", json!(den8)); int_lerp_8bit!(s, u8, den8); });
     rep.section("integer Lerp: wider types, boundary alphabets",
-        "squares of boundary alphabets (range limits, halves, powers of two, small values) for i16,u16,i32,u32,i64,u64,isize,usize x the same factors/forms; a case is asserted only when the endpoints and every intermediate of the float formula are exactly representable in the factor's float type (checked in exact rationals), otherwise skipped and counted; non-trivial: asserted cases", true, false, |s| {
+        "squares of boundary alphabets (range limits, halves, powers of two, small and odd values, the values around 2^24 and 2^53 where f32/f64 stop representing every integer, the largest f32/f64-representable values below the type maximum; thorough: every +-2^k, +-(2^k+-1), +-3*2^k and factors k/16) for i16,u16,i32,u32,i64,u64,isize,usize x the same factors/forms; a case is asserted only when the endpoints and every intermediate of the float formula are exactly representable in the factor's float type (checked in exact rationals), otherwise skipped and counted; non-trivial: asserted cases", true, false, |s| {
         s.require_classes(&["asserted", "to<from"]);
-        int_lerp_wide!(s, i16, alph(i16::MIN as i128, i16::MAX as i128)); int_lerp_wide!(s, u16, alph(0, u16::MAX as i128));
-        int_lerp_wide!(s, i32, alph(i32::MIN as i128, i32::MAX as i128)); int_lerp_wide!(s, u32, alph(0, u32::MAX as i128));
-        int_lerp_wide!(s, i64, alph(i64::MIN as i128, i64::MAX as i128)); int_lerp_wide!(s, u64, alph(0, u64::MAX as i128));
-        int_lerp_wide!(s, isize, alph(isize::MIN as i128, isize::MAX as i128)); int_lerp_wide!(s, usize, alph(0, usize::MAX as i128));
+        // (changed) alph -> alph_x, a superset (see alph_x); thorough: factor grid k/16 and the +-2^k families
+        let denw: i32 = if th { 16 } else { 8 };
+        s.meta("alphabet_sizes", json!({"i16": alph_x(i16::MIN as i128, i16::MAX as i128, th).len(), "i32": alph_x(i32::MIN as i128, i32::MAX as i128, th).len(), "i64": alph_x(i64::MIN as i128, i64::MAX as i128, th).len(), "u64": alph_x(0, u64::MAX as i128, th).len(), "factor_grid_denominator": denw}));
+        int_lerp_wide!(s, i16, alph_x(i16::MIN as i128, i16::MAX as i128, th), denw); int_lerp_wide!(s, u16, alph_x(0, u16::MAX as i128, th), denw);
+        int_lerp_wide!(s, i32, alph_x(i32::MIN as i128, i32::MAX as i128, th), denw); int_lerp_wide!(s, u32, alph_x(0, u32::MAX as i128, th), denw);
+        int_lerp_wide!(s, i64, alph_x(i64::MIN as i128, i64::MAX as i128, th), denw); int_lerp_wide!(s, u64, alph_x(0, u64::MAX as i128, th), denw);
+        int_lerp_wide!(s, isize, alph_x(isize::MIN as i128, isize::MAX as i128, th), denw); int_lerp_wide!(s, usize, alph_x(0, usize::MAX as i128, th), denw);
         s.sample(json!({"type": "i32", "call": "lerp_unclamped(i32::MIN, i32::MAX, 0.5f64)", "want": "0 (exact value -0.5 rounds half away from zero to -1? no: MIN + 0.5*(MAX-MIN) = -0.5 -> -1)"}));
     });
 
@@ -451,6 +947,161 @@ fn main() {
             if t.into_current() != qi(3) + mc * qi(-8) { s.violation("Transition<X>::into_current", "not-the-lerp-at-mapped-progress", json!({"progress": jx(p)})); }
         }
         s.sample(json!({"T": "f32", "start": 2.0, "end": -6.0, "mapper": "x^2", "progress": 0.5, "current": <f32 as Lerp<f32>>::lerp(2.0, -6.0, 0.25)}));
+    });
+
+    // =================================================================================================
+    // sections added by the clause audit (out/AUDIT.md)
+    // =================================================================================================
+    rep.section("float Lerp: non-dyadic factors, every derived form, extreme magnitudes (f64, f32)",
+        "12^2 endpoint pairs with full significands x 14 factors (0, 1, 0.1, 0.3, 1/3, 0.7, 0.9, -0.37, 1.63, 1e-9, 1-eps, eps, -2.5, 3.25; thorough: 36^2 pairs x 124 factors incl. k/37, k=-37..74): fast and precise forms within 256 eps 2 max(|from|,|to|)(1+|f|) of the exact rational value of the float inputs, factor 0 -> from exactly, precise factor 1 -> to exactly; the 14 derived forms (reference impls, clamped forms, 8 inclusive-range forms) and 4 Transition routes are bit-identical to the base form at the (clamped) factor; plus 10^2 pairs of extreme magnitudes (MAX/4, MAX/2, MIN_POSITIVE, subnormals) x 9 factors in [0,1]: exact endpoints and the convex-hull law; non-trivial: from != to and f not in {0,1}", true, false, |s| {
+        s.require_classes(&["fast!=precise (bitwise)", "fast form misses `to` at factor 1", "extreme-magnitude"]);
+        float_lerp_more!(s, f64); float_lerp_more!(s, f32);
+    });
+
+    rep.section("float vectors: every lane of the 13 types, all 24 forms (f64, f32)",
+        "13 vector types x {f64, f32} x R rounds of lane-distinct inexact endpoints (R = 3 quick, 8 thorough) x 9 factors (scalar) and a lane-varying factor vector: the 16 Lerp-trait forms (value/reference x fast/precise x clamped/unclamped x plain/inclusive-range) are bit-identical, lane by lane, to the scalar Lerp impl (checked against exact rationals above) applied to that lane's own elements at the (clamped) factor - the precise forms to the precise scalar formula, the fast forms to the fast one; the 8 inherent forms (scalar and per-element factor) are within 256 eps 2 max(|from|,|to|)(1+|f|) of the exact rational value, exact at factor 0 and (precise) at factor 1; non-trivial: all lanes", true, false, |s| {
+        s.require_classes(&["Vec2", "Vec3", "Vec4", "Vec8", "Vec16", "Vec32", "Vec64", "Extent2", "Extent3", "Rgb", "Rgba", "Uv", "Uvw", "lanes where the scalar fast and precise forms differ bitwise", "lanes where the fast form misses `to` at factor 1"]);
+        let rounds = if s.thorough() { 8 } else { 3 };
+        for_all_vecs!(V => { vec_lerp_float!(s, V, f64, rounds); vec_lerp_float!(s, V, f32, rounds); });
+        s.sample(json!({"type": "Vec3<f64>", "lane_endpoints": "from_i = ((i+r)*37+11 mod 101)*0.173-8.1, to_i = ((i+r)*53+29 mod 103)*0.291-15.3", "law": "Lerp::lerp_unclamped_precise(a,b,f).lane(i) bit== f64::lerp_unclamped_precise(a_i,b_i,f)"}));
+    });
+
+    rep.section("integer vectors through the Lerp trait (u8, i8, u16, i32 elements; f32 and f64 factors)",
+        "13 vector types x element types {u8, i8, u16, i32} x factor types {f32, f64} x 3 rounds of lane-distinct endpoints anywhere in the element range (range limits in lanes 0/1, descending lanes) x factors k/8, k=-8..16 x 10 trait forms (value/reference, fast/precise, clamped, two range forms): each lane equals round-half-away(from_i + f (to_i - from_i)) computed in exact rationals, asserted when it lies in the element range; non-trivial: all asserted lanes", true, false, |s| {
+        s.require_classes(&["to<from", "Vec64", "Rgba", "Extent2"]);
+        for_all_vecs!(V => { vec_lerp_int!(s, V, u8, f32); vec_lerp_int!(s, V, i8, f32); vec_lerp_int!(s, V, u8, f64); vec_lerp_int!(s, V, i8, f64); vec_lerp_int!(s, V, u16, f32); vec_lerp_int!(s, V, i32, f64); });
+        s.sample(json!({"type": "Rgba<u8>", "call": "Lerp::lerp(Rgba(255,0,..), Rgba(0,255,..), 0.5f32)", "want_lane0": 128, "want_lane1": 128}));
+    });
+
+    rep.section("integer Lerp: inclusive-range forms and factors that are not multiples of 1/8",
+        "8- and 16-bit types x pairs of an alphabet (quick: 40 values incl. limits; thorough: ALL 65536 pairs of i8/u8 and 160^2 of i16/u16) x {f32, f64}: (1) the 8 inclusive-range forms on factors k/8 against the exact rounded value; (2) fast/precise x clamped/unclamped x value/reference at 12 non-dyadic factors (0.1, 0.3, 1/3, 0.7, 0.9, -0.3, 1.7, 1e-3, 0.999, 0.45, 2/3, -0.85): the float factor is converted exactly, the real-valued result rounded half away from zero; asserted when the exact value is farther than 8 eps max(|from|,|to|)(1+|f|) from a rounding tie (then every correctly evaluated formula rounds to the same integer) and lies in the type's range; non-trivial: asserted cases", true, false, |s| {
+        s.require_classes(&["range-forms asserted", "non-dyadic asserted"]);
+        let th = s.thorough();
+        let sub = |min: i128, max: i128, n: i128| -> Vec<i128> { let mut v: Vec<i128> = (0..n).map(|i| min + (max - min) * i / (n - 1)).collect(); v.extend([min, min + 1, max - 1, max, 0, 1, 2, 3, 100, 101, 127, 128, 200, 255]); v.retain(|x| *x >= min && *x <= max); v.sort(); v.dedup(); v };
+        let mut acc = (0u64, 0u64, 0u64);
+        let v8i: Vec<i128> = if th { (-128..=127).collect() } else { sub(-128, 127, 30) }; let v8u: Vec<i128> = if th { (0..=255).collect() } else { sub(0, 255, 30) };
+        let (v16i, v16u) = (sub(i16::MIN as i128, i16::MAX as i128, if th { 150 } else { 24 }), sub(0, u16::MAX as i128, if th { 150 } else { 24 }));
+        int_lerp_extra!(s, i8, f32, &v8i, acc); int_lerp_extra!(s, i8, f64, &v8i, acc); int_lerp_extra!(s, u8, f32, &v8u, acc); int_lerp_extra!(s, u8, f64, &v8u, acc);
+        int_lerp_extra!(s, i16, f32, &v16i, acc); int_lerp_extra!(s, i16, f64, &v16i, acc); int_lerp_extra!(s, u16, f32, &v16u, acc); int_lerp_extra!(s, u16, f64, &v16u, acc);
+        s.evals(acc.0 + acc.1 + acc.2, acc.0 + acc.1); s.class_n("range-forms asserted", acc.0); s.class_n("non-dyadic asserted", acc.1); s.class_n("skipped(outside the type's range or too close to a tie)", acc.2);
+        s.sample(json!({"call": "lerp_unclamped(200u8, 100u8, 0.3f32)", "exact": "200 - 100*0.300000011920929 = 169.9999988...", "want": 170}));
+    });
+
+    rep.section("quaternion slerp, exact, general endpoints (from = q0 r^k1, to = +-q0 r^(k1+4))",
+        "q0 in 5 rational unit quaternions (no zero component but one), r^k = (axis sin(k phi), cos(k phi)) for 5 rational unit axes and rational angle bases phi (3 quick, 6 thorough), k1 in {0,1}, both signs of `to`, factors j/4, j=-2..6: slerp_unclamped(from, to, j/4) = q0 r^(k1+j) exactly (Hamilton product computed here on arrays): neither endpoint is the identity, endpoints do not commute with the axis; inherent, Slerp value/reference, clamped forms; non-trivial: j not in {0,4}", true, false, |s| {
+        s.require_classes(&["sign-flip-branch", "direct-branch"]);
+        let hmul = |a: [X; 4], b: [X; 4]| -> [X; 4] { [
+            a[3] * b[0] + b[3] * a[0] + (a[1] * b[2] - a[2] * b[1]),
+            a[3] * b[1] + b[3] * a[1] + (a[2] * b[0] - a[0] * b[2]),
+            a[3] * b[2] + b[3] * a[2] + (a[0] * b[1] - a[1] * b[0]),
+            a[3] * b[3] - (a[0] * b[0] + a[1] * b[1] + a[2] * b[2]) ] };
+        let q0s: [[X; 4]; 5] = [[q(1, 5), q(2, 5), q(2, 5), q(4, 5)], [q(2, 7), q(3, 7), q(6, 7), qi(0)], [q(1, 2), q(-1, 2), q(1, 2), q(-1, 2)], [q(2, 9), q(4, 9), q(5, 9), q(6, 9)], [q(-1, 5), q(2, 5), q(-4, 5), q(-2, 5)]];
+        let axes: [[X; 3]; 5] = [[qi(1), qi(0), qi(0)], [qi(0), qi(1), qi(0)], [qi(0), qi(0), qi(-1)], [q(1, 3), q(2, 3), q(2, 3)], [q(2, 7), q(-3, 7), q(6, 7)]];
+        let bases: &[(i128, i128)] = if s.thorough() { &[(1, 8), (1, 10), (1, 12), (1, 16), (2, 21), (1, 20)] } else { &[(1, 8), (1, 12), (1, 20)] };
+        for &(tn, td) in bases {
+            let b = angle_base_t(tn, td);
+            clear_inverse(); register_inverse(X::tok(b, 4));
+            for q0 in &q0s { for ax in &axes { for k1 in [0i128, 1] { for flip in [false, true] {
+                let rk = |k: i128| -> [X; 4] { let (sn, cs) = X::tok(b, k).sin_cos_q(); [ax[0] * X::R(sn), ax[1] * X::R(sn), ax[2] * X::R(sn), X::R(cs)] };
+                let built = catch(|| (hmul(*q0, rk(k1)), hmul(*q0, rk(k1 + 4))));
+                let (fa, ta) = match built { Ok(v) => v, Err(_) => { s.unmodelled("rational overflow building the endpoints"); continue; } };
+                let sg = if flip { qi(-1) } else { qi(1) };
+                let from = Quaternion { x: fa[0], y: fa[1], z: fa[2], w: fa[3] };
+                let to = Quaternion { x: sg * ta[0], y: sg * ta[1], z: sg * ta[2], w: sg * ta[3] };
+                s.class(if flip { "sign-flip-branch" } else { "direct-branch" });
+                let dq = |r: Quaternion<X>| [r.x, r.y, r.z, r.w];
+                for j in -2i128..=6 {
+                    let f = q(j, 4);
+                    let jc = j.clamp(0, 4);
+                    let (want, want_cl) = match catch(|| (hmul(*q0, rk(k1 + j)), hmul(*q0, rk(k1 + jc)))) { Ok(v) => v, Err(_) => { s.unmodelled("rational overflow in the oracle"); continue; } };
+                    let inp = || json!({"from": jxs(&dq(from)), "to": jxs(&dq(to)), "factor": jx(f), "phi_base_t": format!("{}/{}", tn, td)});
+                    for (name, got, w) in [
+                        ("Quaternion::slerp_unclamped", s.call("slerp", inp, || dq(Quaternion::slerp_unclamped(from, to, f))), want),
+                        ("Slerp::slerp_unclamped for Quaternion", s.call("slerp", inp, || dq(<Quaternion<X> as Slerp<X>>::slerp_unclamped(from, to, f))), want),
+                        ("Slerp::slerp_unclamped for &Quaternion", s.call("slerp", inp, || dq(<&Quaternion<X> as Slerp<X>>::slerp_unclamped(&from, &to, f))), want),
+                        ("Quaternion::slerp", s.call("slerp", inp, || dq(Quaternion::slerp(from, to, f))), want_cl),
+                        ("Slerp::slerp for Quaternion", s.call("slerp", inp, || dq(<Quaternion<X> as Slerp<X>>::slerp(from, to, f))), want_cl),
+                        ("Slerp::slerp for &Quaternion", s.call("slerp", inp, || dq(<&Quaternion<X> as Slerp<X>>::slerp(&from, &to, f))), want_cl),
+                    ] {
+                        s.eval(j != 0 && j != 4);
+                        if let Some(g) = got { if g != w { s.violation(name, "not-on-the-arc-at-constant-speed", json!({"input": inp(), "got": jxs(&g), "want": jxs(&w)})); } }
+                    }
+                    if s.wants_sample() && j == 1 && flip { s.sample(json!({"input": inp(), "want": jxs(&want)})); }
+                }
+            } } } }
+        }
+    });
+
+    rep.section("quaternion nlerp direction and slerp on general pairs against a Gram-Schmidt reference (f64, f32)",
+        "all ordered pairs of Q unit quaternions (16 axes x 4 angles incl. rotation angles > pi, i.e. w < 0 and both signs of a rotation; thorough 21 x 8) x 11 factors in [-0.5,1.5], for f64 and f32: the 12 Lerp-trait forms (value/reference, fast/precise, clamped, range) return the component interpolation scaled to unit length within 64 eps (1+|f|) max|q| / |lerp| - for unit inputs and for inputs scaled by 3 and 1/4 (skipped where the interpolated components pass within 5% of zero); slerp_unclamped = cos(f theta) a + sin(f theta) e2 with e2 from Gram-Schmidt of +-b against a and theta = atan2(|u|, |a.b|) (unit, shorter arc, constant angular speed, both ends) within 256 eps (1+|f|) 4 / sin theta; pairs with |a.b| < 1e-6 skipped (both arcs equally short); Slerp value/reference and the three clamped forms bit-identical to slerp_unclamped at the (clamped) factor; non-trivial: all", true, false, |s| {
+        s.require_classes(&["sign-flip-branch (dot < 0)", "direct-branch (dot > 0)", "nlerp-direction", "nlerp-of-non-unit-inputs", "general-pair-on-the-arc"]);
+        quat_float!(s, f64); quat_float!(s, f32);
+        // a factor type that converts into the element type (Slerp<f32> for Quaternion<f64>)
+        let qa = Quaternion { x: 0.1f64, y: -0.5, z: 0.3, w: (1.0f64 - 0.35).sqrt() }; let qb = Quaternion { x: -0.7f64, y: 0.1, z: 0.1, w: -(1.0f64 - 0.51).sqrt() };
+        for k in -4i32..=12 {
+            let f = k as f32 / 8.0 + 0.01; let fc = if f < 0.0 { 0.0 } else if f > 1.0 { 1.0 } else { f };
+            let b4 = |r: Quaternion<f64>| [r.x.to_bits(), r.y.to_bits(), r.z.to_bits(), r.w.to_bits()];
+            s.evals(4, 4); s.class("factor-type-converts-into-element-type");
+            for (name, g, w) in [("Slerp<f32>::slerp_unclamped for Quaternion<f64>", <Quaternion<f64> as Slerp<f32>>::slerp_unclamped(qa, qb, f), Quaternion::slerp_unclamped(qa, qb, f as f64)),
+                                 ("Slerp<f32>::slerp_unclamped for &Quaternion<f64>", <&Quaternion<f64> as Slerp<f32>>::slerp_unclamped(&qa, &qb, f), Quaternion::slerp_unclamped(qa, qb, f as f64)),
+                                 ("Slerp<f32>::slerp for Quaternion<f64>", <Quaternion<f64> as Slerp<f32>>::slerp(qa, qb, f), Quaternion::slerp_unclamped(qa, qb, fc as f64)),
+                                 ("Slerp<f32>::slerp for &Quaternion<f64>", <&Quaternion<f64> as Slerp<f32>>::slerp(&qa, &qb, f), Quaternion::slerp_unclamped(qa, qb, fc as f64))] {
+                if b4(g) != b4(w) { s.violation(name, "differs-from-slerp_unclamped-at-the-converted-factor", json!({"factor": f})); }
+            }
+        }
+    });
+
+    rep.section("Transform lerp: inexact endpoints, mixed element types, clamped and range forms, endpoints",
+        "7x7 (thorough 8x8) ordered pairs of transforms (non-axis-aligned rotation axes, orientations in both hemispheres, inexact positions/scales) x 8 factors (-0.4, 0, 0.3, 0.5, 0.7, 1, 1.6, 1/3; thorough + k/7, k=-7..21) x 12 forms (value/reference x fast/precise x clamped/unclamped + 4 range forms) for Transform<f64,f64,f64> (factor f64), Transform<f32,f64,f32> (factor f32 converting into the f64 orientation), Transform<i32,f32,u8> (integer position and scale): position and scale lanes equal the SCALAR Lerp impl of that lane (precise forms the precise one: the inputs are chosen so that fast != precise), orientation equals Quaternion::slerp_unclamped at the converted (clamped) factor; and independently: factor 0 gives `from`, factor 1 gives `to` (position/scale exactly for precise forms, orientation up to sign within 64 eps); non-trivial: all", true, false, |s| {
+        s.require_classes(&["fast!=precise [f64,f64,f64]", "fast!=precise [f32,f64,f32]", "orientations-in-opposite-hemispheres", "i32,f32,u8"]);
+        transform_more!(s, f64, f64, f64, f64, |i: usize| Vec3 { x: 0.1 + i as f64 * 1.7, y: -7.3 * i as f64, z: 123.456 - i as f64 / 3.0 }, |i: usize| Vec3 { x: 1.0 + i as f64 / 7.0, y: 0.3 * (i as f64 + 1.0), z: 2.0 - 0.27 * i as f64 }, "f64,f64,f64");
+        transform_more!(s, f32, f64, f32, f32, |i: usize| Vec3 { x: 0.1 + i as f32 * 1.7, y: -7.3 * i as f32, z: 123.456 - i as f32 / 3.0 }, |i: usize| Vec3 { x: 1.0 + i as f32 / 7.0, y: 0.3 * (i as f32 + 1.0), z: 2.0 - 0.27 * i as f32 }, "f32,f64,f32");
+        transform_more!(s, i32, f32, u8, f32, |i: usize| Vec3 { x: 1000 - 333 * i as i32, y: i32::MIN / 512 + i as i32, z: 7 * (i as i32 % 3) - 5 }, |i: usize| Vec3 { x: 200 - 25 * i as u8, y: 3 + i as u8, z: if i % 2 == 0 { 255 } else { 0 } }, "i32,f32,u8");
+        s.sample(json!({"T": "Transform<f32,f64,f32>", "factor_type": "f32", "law": "position.x == f32::lerp_unclamped_precise(a.position.x, b.position.x, t) for the precise forms; orientation == Quaternion::<f64>::slerp_unclamped(a.o, b.o, t as f64)"}));
+    });
+
+    rep.section("Transition: inputs on which clamped/unclamped and fast/precise all differ; progress sequences; defaults",
+        "element types {f32 (0.1 -> -7.3), f64 progress with f64 and with i64/u8 elements, Vec3<f32>, Rgba<u8> descending, i32 descending through 0, Quaternion<f32> (nlerp), Transform<f32,f32,f32>} x mappers {x^2, 1-x, 3x^2-2x^3, x (function pointer)} x a sequence of 9 progress values written into one transition object (-0.5, 0, 0.3, 0.25, 0.7, 1, 1.5, 1/3, 0.9; thorough + 45 more in (-2,2), non-monotone): the 4 by-reference accessors, then the 4 consuming ones on a copy, equal the direct Lerp call of the same flavour at the mapped progress, and the by-reference accessors leave start/end/progress untouched; LinearTransition on the same; Default / From<fn> / From<Range> constructors; the exact element type X through all 8 accessors; non-trivial: all", true, false, |s| {
+        s.require_classes(&["cases where fast != precise", "cases where clamped != unclamped"]);
+        let mut acc = (0u64, 0u64, 0u64);
+        transition_more!(s, f32, f32, 0.1, -7.3, "f32", acc);
+        transition_more!(s, f64, f64, 0.1, -7.3, "f64", acc);
+        transition_more!(s, Vec3<f32>, f32, Vec3 { x: 0.1, y: 123.456, z: -0.001 }, Vec3 { x: -7.3, y: 0.7, z: 999.999 }, "Vec3<f32>", acc);
+        transition_more!(s, vek::Rgba<u8>, f32, vek::Rgba { r: 255, g: 200, b: 0, a: 17 }, vek::Rgba { r: 0, g: 100, b: 255, a: 18 }, "Rgba<u8>", acc);
+        transition_more!(s, i32, f32, 20, -10, "i32", acc);
+        transition_more!(s, i64, f64, -(1i64 << 40) - 1, (1i64 << 50) + 3, "i64,progress f64", acc);
+        transition_more!(s, u8, f64, 200, 100, "u8,progress f64", acc);
+        transition_more!(s, Quaternion<f32>, f32, Quaternion { x: 0.1, y: -0.5, z: 0.3, w: 0.8062258 }, Quaternion { x: -0.7, y: 0.1, z: 0.1, w: 0.7 }, "Quaternion<f32>", acc);
+        transition_more!(s, Transform<f32, f32, f32>, f32,
+            Transform { position: Vec3 { x: 0.1, y: -7.3, z: 2.0 }, orientation: Quaternion { x: 0.0, y: 0.6, z: 0.0, w: 0.8 }, scale: Vec3 { x: 1.0, y: 0.3, z: 2.0 } },
+            Transform { position: Vec3 { x: 9.7, y: 0.3, z: -1.1 }, orientation: Quaternion { x: -0.6, y: 0.0, z: 0.0, w: -0.8 }, scale: Vec3 { x: 0.7, y: 1.3, z: 0.1 } }, "Transform<f32,f32,f32>", acc);
+        s.evals(acc.2, acc.2); s.class_n("cases where fast != precise", acc.0); s.class_n("cases where clamped != unclamped", acc.1);
+        // constructors never called before
+        fn cube(x: f32) -> f32 { x * x * x }
+        s.evals(5, 5);
+        let d = Transition::<f32, ProgressMapperFn<f32>, f32>::default();
+        if d.start != 0.0 || d.end != 0.0 || d.progress != 0.0 || (d.progress_mapper.0)(0.37) != 0.37 { s.violation("Transition::default", "wrong-fields", json!({})); }
+        let dl = LinearTransition::<Vec2<f32>, f32>::default();
+        if dl.start != (Vec2 { x: 0.0, y: 0.0 }) || dl.end != (Vec2 { x: 0.0, y: 0.0 }) || dl.progress != 0.0 { s.violation("LinearTransition::default", "wrong-fields", json!({})); }
+        for p in [-0.5f32, 0.0, 0.37, 1.0, 2.5] { if vek::ProgressMapper::<f32>::map_progress(&ProgressMapperFn::<f32>::default(), p) != p { s.violation("ProgressMapperFn::default", "not-the-identity", json!({"progress": p})); } }
+        let pm: ProgressMapperFn<f32> = (cube as fn(f32) -> f32).into();
+        if vek::ProgressMapper::<f32>::map_progress(&pm, 0.7) != cube(0.7) { s.violation("ProgressMapperFn::from(fn)", "not-the-wrapped-function", json!({})); }
+        let fr: Transition<i32, ProgressMapperFn<f32>, f32> = (20..-10).into();
+        if fr.start != 20 || fr.end != -10 || fr.progress != 0.0 || fr.current() != 20 { s.violation("Transition::from(Range)", "wrong-fields", json!({})); }
+        // exact element type, all eight accessors, mapper x^2
+        fn sqx(x: X) -> X { x * x }
+        for pn in [-2i128, -1, 0, 1, 2, 3, 4, 6] {
+            let p = q(pn, 4);
+            let t = Transition::<X, ProgressMapperFn<X>, X>::with_mapper_and_progress(qi(3), qi(-5), ProgressMapperFn(sqx as fn(X) -> X), p);
+            let m = p * p; let mc = if m > qi(1) { qi(1) } else { m };
+            let (wu, wc) = (qi(3) + m * qi(-8), qi(3) + mc * qi(-8));
+            s.evals(8, 8);
+            for (name, got, want) in [("current", t.current(), wc), ("current_unclamped", t.current_unclamped(), wu), ("current_precise", t.current_precise(), wc), ("current_unclamped_precise", t.current_unclamped_precise(), wu),
+                                      ("into_current", t.into_current(), wc), ("into_current_unclamped", t.into_current_unclamped(), wu), ("into_current_precise", t.into_current_precise(), wc), ("into_current_unclamped_precise", t.into_current_unclamped_precise(), wu)] {
+                if got != want { s.violation(&format!("Transition<X>::{}", name), "not-the-lerp-at-mapped-progress", json!({"progress": jx(p), "got": jx(got), "want": jx(want)})); }
+            }
+        }
+        s.sample(json!({"T": "f32", "start": 0.1, "end": -7.3, "mapper": "x^2", "progress": 0.3, "current_unclamped": <f32 as Lerp<f32>>::lerp_unclamped(0.1, -7.3, 0.09), "current_unclamped_precise": <f32 as Lerp<f32>>::lerp_unclamped_precise(0.1, -7.3, 0.09)}));
     });
     std::process::exit(rep.finish());
 }
